@@ -51,7 +51,7 @@ func RaceWorker() *W {
 }
 
 // Timeout for one worker; generous, a hit is reported as a broken check (exit 2), not a verdict.
-var Timeout = 40 * time.Minute
+var Timeout = 75 * time.Minute
 
 // SpawnRace starts n workers of the -race build of the harness (VERIF_RACE_BIN, built by bin/check)
 // with the detector logging to a per-process file, and merges their results into c.
